@@ -179,6 +179,34 @@ def during_save(h, build):
     return True
 
 
+def during_restart(h, build):
+    """Like during_save, for a clean stop: the op that processes the last inbound line of `build()` is handled while
+    stop() is under way (when stop() disconnects the transport - i.e. before anything stop() does afterwards);
+    then the gateway is started again."""
+    h.drain()
+    mark = len(h.ops)
+    build()
+    new = h.ops[mark:]
+    recvs = [i for i, o in enumerate(new) if o[0] == "recv"]
+    if not recvs:
+        h.ops.append(("restart",))
+        return False
+    i = recvs[-1]
+    if h.sync:
+        pumps = [j for j in range(i + 1, len(new)) if new[j] == ("pump",)]
+        j = pumps[0] if pumps else None
+        if j is None:
+            new.append(("pump",))
+            j = len(new) - 1
+        tail = new[j + 1:]
+        new = new[:j] + [("restart_during", ("pump",))]
+        del tail
+    else:
+        new = new[:i] + [("restart_during", new[i])]
+    h.ops[mark:] = new
+    return True
+
+
 def seed_network(h, nodes=None, rich=False):
     """present a few nodes with children and values."""
     r = h.r
@@ -350,7 +378,9 @@ def c06_directed(rng, cfg):
                 h.ops.append(("save",))
             for _ in range(r.choice([1, 1, 2])):
                 h.idreq()
-        if persist:
+        if persist and r.random() < 0.3:       # an id request is handled while stop() is under way
+            during_restart(h, h.idreq)
+        elif persist:
             h.ops.append(("restart",))
         for _ in range(r.choice([1, 2, 3])):
             h.idreq()
@@ -502,6 +532,10 @@ def c14_directed(rng, cfg, kind=None):
             h.child(n, 1)
         h.drain()
         kd = kind if k == rounds - 1 else r.choice(kinds)
+        if r.random() < 0.15:                   # the change is handled while stop() is under way
+            h.ops.append(("save",))
+            during_restart(h, lambda: h.state_change(kd, n=n))
+            continue
         if r.random() < 0.35:                   # the change arrives while a periodic save is in progress
             h.state_change(r.choice([x for x in kinds if x != "idreq"]), n=n)    # something to save
             during_save(h, lambda: h.state_change(kd, n=n))
